@@ -19,7 +19,7 @@ for c in $CHECKS; do
   FATFS_PATH="$W" timeout 1200 $CHECK $c quick >"/tmp/confirm/benign-$ID.$c.out" 2>&1; rc=$?
   if grep -q "^VIOLATION" "/tmp/confirm/benign-$ID.$c.out" || [ $rc -ne 0 ]; then
     ALARMS="$ALARMS $c"
-    { echo "== $c (exit $rc)"; grep -A4 "^VIOLATION\|MACHINERY" "/tmp/confirm/benign-$ID.$c.out" | cut -c1-500 | head -40; tail -3 "/tmp/confirm/benign-$ID.$c.out" | cut -c1-300; } >>"$OUT/check_output.txt"
+    { echo "== $c (exit $rc)"; grep -a -A4 "^VIOLATION\|MACHINERY" "/tmp/confirm/benign-$ID.$c.out" | cut -c1-500 | head -40; tail -3 "/tmp/confirm/benign-$ID.$c.out" | cut -c1-300; } >>"$OUT/check_output.txt"
   fi
   rm -f "/tmp/confirm/benign-$ID.$c.out"
 done
